@@ -382,6 +382,16 @@ func (t *Topo) AddNode() int {
 	return i
 }
 
+// Unreachable closes the listener of a node: from now on connection attempts to its address are
+// refused (a node whose announced address cannot be reached from where the client runs);
+// connections that exist already keep being served, the node keeps its slots.
+func (t *Topo) Unreachable(node int) {
+	if ln := t.cl.nodes[node].ln; ln != nil {
+		ln.Close()
+	}
+	t.event("node %d (%s) refuses new connections", node, t.cl.nodes[node].addr)
+}
+
 // SetMigrating puts slot into MIGRATING(to) at its owner and IMPORTING(owner) at `to`
 // (CLUSTER SETSLOT <slot> IMPORTING on the target, then MIGRATING on the source).
 func (t *Topo) SetMigrating(slot, to int) {
